@@ -209,7 +209,7 @@ theorem qChain_maps (c : MiniCfg) (ws : List Nat) (mn : Int) : ∀ d : Nat,
         rcases key s line endLine hc with h' | ⟨s'', h', _, hlt, _, hrunq⟩
         · rw [h'] at h; cases h
         · rw [h'] at h; cases h
-          obtain ⟨s3, s4, next, openT, closeT, hl3, hlen3, hend3, hLv3, hrun, htok3, htok, _, _, _, _, _, _, hline, hom, hcm⟩ :=
+          obtain ⟨s3, s4, next, openT, closeT, hl3, hlen3, hend3, hLv3, hrun, htok3, htok, _, _, _, _, _, _, hline, hom, hcm, _⟩ :=
             quote_tokens mn d _ s line s' hrunq
           obtain ⟨new, hs4, hst⟩ := ih.2 s3 line next s4 hlen3 hend3 hLv3 hrun
           refine ⟨_, htok new hs4, ?_⟩
